@@ -24,7 +24,8 @@ import numpy as np
 from vcommon import tlc, require_tlc_ok, workdir, WORK, SPEC, MachineryError
 
 NOEND = -99
-OP_PROPERTY = {"UpdateRange": "C08", "Fdwra": "C06", "TdReject": "C13", "ManualReject": "C05", "ManualSession": "C05", "Init": "C08"}
+OP_PROPERTY = {"UpdateRange": "C08", "Fdwra": "C06", "TdReject": "C13", "ManualReject": "C05", "ManualSession": "C05", "Init": "C08",
+               "PeakInStatistics": "C05"}
 
 AZIMUTHS = [0.0, 45.0, 90.0, 135.0]
 
@@ -127,6 +128,20 @@ def skey(s):
     return json.dumps([s["r"], s["m"], s["pk"], s["vw"], s["vp"]])
 
 
+def observable(p, ref):
+    """The cached peak of a window whose peak flag is off cannot be observed through the public API
+    (peak_frequencies / peak_amplitudes only list flagged windows): for the comparison with the specification such
+    entries are taken from the specification's state `ref` (don't care)."""
+    if ref is None or not isinstance(p.get("pk"), list):
+        return p
+    q = dict(p)
+    try:
+        q["pk"] = [[(x if v else y) for x, v, y in zip(rp, rv, rr)] for rp, rv, rr in zip(p["pk"], p["vp"], ref["pk"])]
+    except Exception:
+        return p
+    return q
+
+
 def export_graph(cfg_text, name, env, workers=16, timeout=1500, coverage=False):
     path = os.path.join(WORK, f"{name}.cfg")
     os.makedirs(WORK, exist_ok=True)
@@ -221,13 +236,54 @@ class Real:
         if op == "Fdwra":
             r = (inst.hz(a["r"][0]), inst.hz(a["r"][1]))
             import warnings
-            with warnings.catch_warnings():
+            import logging
+            # per-iteration DEBUG trace of the algorithm (masks, mean / std of fn, mean-curve peak before and after)
+            records = []
+
+            class _H(logging.Handler):
+                def emit(self_, rec):
+                    records.append(rec.getMessage())
+            lg = logging.getLogger("hvsrpy.window_rejection")
+            hd, old = _H(), lg.level
+            lg.addHandler(hd)
+            lg.setLevel(logging.DEBUG)
+            self.fdwra_log = records
+            try:
+              with warnings.catch_warnings():
                 warnings.simplefilter("ignore")
                 return self.h.frequency_domain_window_rejection(
                     obj, n=a["n"][0] / a["n"][1], max_iterations=a["mi"],
                     distribution_fn=inst.dist_f, distribution_mc=inst.dist_a,
                     search_range_in_hz=r, find_peaks_kwargs={} if a["kw"] else None)
+            finally:
+                lg.removeHandler(hd)
+                lg.setLevel(old)
         raise MachineryError(f"unknown op {op}")
+
+
+def parse_fdwra_log(records):
+    """DEBUG records of hvsrpy.window_rejection -> list of iterations [{vw, vp, mean_before, std_before, mc_before, ...}]"""
+    import re as _re
+    its, cur = [], None
+    for m in records:
+        m = m.strip()
+        if m.startswith("c_iteration:"):
+            cur = dict(k=int(m.split(":")[1]))
+            its.append(cur)
+        elif cur is None:
+            continue
+        elif m.startswith("valid_window_boolean_mask:"):
+            cur["vw"] = [x == "True" for x in _re.findall(r"True|False", m)]
+        elif m.startswith("valid_peak_boolean_mask:"):
+            cur["vp"] = [x == "True" for x in _re.findall(r"True|False", m)]
+        else:
+            for key in ("mean_fn_before", "std_fn_before", "mc_peak_frq_before", "mean_fn_after", "std_fn_after", "mc_peak_frq_after"):
+                if m.startswith(key + ":"):
+                    try:
+                        cur[key] = float(m.split(":")[1])
+                    except ValueError:
+                        cur[key] = None
+    return its
 
 
 def _manual_session(self, obj, a):
@@ -281,6 +337,7 @@ class Replayer:
         self._noted = set()
         self.trans_hook = None
         self.step_hook = None
+        self.fdwra_hook = None
         self.stats = dict(states=0, transitions=0, skipped_fdwra=0, mismatches=0, exceptions=0, ops={})
 
     def replay(self, inst, state_hook=None, max_groups=None, trans_filter=None, trans_hook=None, step_hook=None):
@@ -341,7 +398,7 @@ class Replayer:
                                  f"{a} on cv={cv} from state {t['s']} raised {type(e).__name__}: {e}",
                                  dict(kind="hvsrobject-step", cv=cv, s=t["s"], a=a, inst=real.inst.name()))
                     continue
-                p = real.project(o2)
+                p = observable(real.project(o2), t["t"])
                 self.stats["transitions"] += 1
                 if self.trans_hook is not None:
                     self.trans_hook(real, o2, t, p, cv)
@@ -354,6 +411,8 @@ class Replayer:
                 ok = skey(p) == skey(t["t"])
                 if a["op"] == "Fdwra" and ret != a["it"]:
                     ok = False
+                if ok and a["op"] == "Fdwra" and self.fdwra_hook is not None and self.na == 1:
+                    self.fdwra_hook(real, t, p, states, cv, parse_fdwra_log(getattr(real, "fdwra_log", [])))
                 if ok and self.step_hook is not None and skey(p) in states:
                     # after EVERY action (not only on first arrival in a state): the object carries its whole history
                     self.step_hook(real, o2, states[skey(p)], cv)
@@ -368,13 +427,28 @@ class Replayer:
                 else:
                     self._mismatch(real, cv, t["s"], a, p, ret, None, expected=t["t"])
 
+    @staticmethod
+    def _blame(a, p, expected):
+        """which property a deviating step speaks about: by the component of the state that deviates"""
+        op = a["op"]
+        if expected is None or not isinstance(p.get("r"), list):
+            return op
+        if p["vw"] != expected["vw"] or p["vp"] != expected["vp"]:
+            return op
+        if p["pk"] != expected["pk"]:
+            # the masks are right but a flagged window carries a peak the search over the current range does not give
+            return "PeakInStatistics" if op in ("TdReject", "ManualReject", "ManualSession") else "UpdateRange"
+        if p["r"] != expected["r"]:
+            return "UpdateRange"
+        return op
+
     def _mismatch(self, real, cv, s, a, p, ret, why, expected=None):
         self.stats["mismatches"] += 1
         ev = dict(a, t=p)
         if a["op"] == "Fdwra":
             ev["it"] = ret
         self.pending.append(dict(cv=cv, s0=s if s is not None else p, ev=[ev_of(ev)], _a=a, _expected=expected,
-                                 _inst=real.inst.name(), _why=why))
+                                 _inst=real.inst.name(), _why=why, _blame=self._blame(a, p, expected)))
 
     def _report(self, op, key, desc, replay):
         pid = OP_PROPERTY.get(op, self.run.pid)
@@ -418,7 +492,7 @@ class Replayer:
                 continue
             if t in todo:
                 a = t["_a"]
-                self._report(a["op"], f"step:{a['op']}",
+                self._report(t.get("_blame") or a["op"], f"step:{a['op']}" + (f":{t['_blame']}" if t.get("_blame") and t["_blame"] != a["op"] else ""),
                              f"{a} on cv={t['cv']} from state {t['s0']} (instance {t['_inst']}): real post-state "
                              f"{t['ev'][0]['t']} returned={t['ev'][0].get('it')} is not allowed by the property tier "
                              f"(implementation-shaped successor would be {t['_expected']})",
